@@ -215,8 +215,17 @@ def _worker_run(item):
     t0 = time.time()
     try:
         mod.work(item, col)
-    except Exception:
-        if col.violations:
+    except Exception as _e:
+        from vlib import e1 as _e1
+
+        if isinstance(_e, _e1.Diverged) and getattr(mod, "DIVERGENCE_ENTRY", None) and not col.violations:
+            # checks that declare it: the object under test is meant to be self-contained, so two fresh objects driven
+            # through the same operation history must agree; a divergence (shared class-level / module-level state) is a
+            # finding about the implementation. The replay gate re-runs the item and requires the divergence again.
+            entry = mod.DIVERGENCE_ENTRY(item) if callable(mod.DIVERGENCE_ENTRY) else mod.DIVERGENCE_ENTRY
+            col.tick(1)
+            col.violation(f"{mod.PROPERTY}|{entry}|behaviour-not-a-function-of-the-operation-history", dict(item=str(item.get("name", ""))[:120] if isinstance(item, dict) else "", what=str(_e)[:300]))
+        elif col.violations:
             # the implementation already misbehaved in this item; what followed (e.g. a diverging
             # validation replay caused by uninitialised memory) is reported as a cap, not as a harness error
             col.cap("work item aborted after violations: " + traceback.format_exc().strip().splitlines()[-1][:200])
